@@ -67,14 +67,14 @@ def r2(cx):
     if ast is None: raise AnchorMissing("AST facts missing")
     nopt = 0; nstruct = 0
     for name in WIRE_STRUCTS:
-        its = ast.items(LIB, kind="struct", name=name)
-        if len(its) != 1: raise AnchorMissing("struct %s not found in %s" % (name, LIB))
-        it = its[0]; nstruct += 1
+        its = ast.items_in_crate(LIB, kind="struct", name=name)
+        if len(its) != 1: raise AnchorMissing("struct %s not found in %s (or a sibling module)" % (name, LIB))
+        LIBF, it = its[0]; nstruct += 1
         attrs = " ".join(it["attrs"])
         der = [a for a in it["attrs"] if a.replace(" ", "").startswith("#[derive(")]
         both = any("Serialize" in a and "Deserialize" in a for a in der)
         struct_serde = [a for a in it["attrs"] if a.replace(" ", "").startswith("#[serde(")]
-        cx.check(both and not struct_serde, "C17.R2", "varlink:%s:derive-pair" % name, "%s:%d" % (LIB, it["line"]),
+        cx.check(both and not struct_serde, "C17.R2", "varlink:%s:derive-pair" % name, "%s:%d" % (LIBF, it["line"]),
                  "Serialize and Deserialize are not derived together from one declaration, or a container-level serde attribute changes one direction (%s)" % struct_serde,
                  note_ok="derive(Serialize, Deserialize), no container attribute")
         for f in it["fields"]:
@@ -82,7 +82,7 @@ def r2(cx):
             asym = [a for a in fa for w in ASYM if w in a.replace('skip_serializing_if="Option::is_none"', "")]
             is_opt = f["ty"].replace(" ", "").startswith("Option<")
             key = "varlink:%s.%s" % (name, f["name"])
-            site = "%s:%d" % (LIB, f["line"])
+            site = "%s:%d" % (LIBF, f["line"])
             if asym:
                 cx.bad("C17.R2", key + ":asymmetric-attr", site, "field attribute %s makes serialisation and deserialisation disagree or changes the wire name" % asym); continue
             if is_opt and name in MUST_OMIT:
